@@ -31,9 +31,9 @@ import (
 type config struct {
 	Name   string
 	Models string // appended to the models: section
-	// NoMap: leave MapIn a generated struct. return_pointers_in_unmarshalinput together with
-	// a map-backed input generates code that does not compile (a C17 matter, reported
-	// there); the option is still exercised on all struct-backed inputs.
+	// NoMap: leave MapIn a generated struct (was needed while return_pointers_in_unmarshalinput
+	// with a map-backed input generated code that did not compile; fixed in the tree by
+	// 12232e6, so no configuration sets it any more).
 	NoMap bool
 	Extra string // appended at top level
 }
@@ -42,7 +42,7 @@ var (
 	base = []config{
 		{Name: "default"},
 		{Name: "nullable-input-omittable", Extra: "nullable_input_omittable: true\n"},
-		{Name: "return-pointers-in-unmarshalinput", Extra: "return_pointers_in_unmarshalinput: true\n", NoMap: true},
+		{Name: "return-pointers-in-unmarshalinput", Extra: "return_pointers_in_unmarshalinput: true\n"},
 		{Name: "call-argument-directives-with-null", Extra: "call_argument_directives_with_null: true\n"},
 		{Name: "struct-fields-not-pointers", Extra: "struct_fields_always_pointers: false\n"},
 	}
@@ -264,8 +264,10 @@ func main() {
 		steps = 4
 	}
 	c.Cov["bounds"] = map[string]any{"tier": c.Tier, "configs": len(cfgs), "max_descent_steps_below_argument": steps,
-		"alphabet": "absent null true 0 -1 1 2147483647 -2147483648 2147483648 -2147483649 9223372036854775807 9223372036854775808 -9223372036854775808 -9223372036854775809 1.0 1.5 1e3 \"1\" \"-1\" \"1.5\" \"abc\" \"\" \"true\" RED red \"RED\" [] [good] [good,good2] [good,null] [null] [each scalar] [[good]] [[]] [good,[good]] {} {required} {required,f:good|null|{}} {required,unknown:1} {unknown:1} {required:null}; numeric positions (Int Float ID IntID UintID and the scalars bound to graphql.Int32/Int64/Uint/Uint32/Uint64/Float, also as list elements) additionally: 4294967295 4294967296 18446744073709551615 18446744073709551616, the strings \"0\" and every 32/64-bit signed/unsigned boundary and its neighbour as a string, \"1e3\" \"1.0\" \"NaN\" \"Infinity\" \"-inf\"",
-		"modes":    "literal; whole argument through a variable; variable nested in a literal object/list; variable with default; non-null variable; nullable variable at a defaulted non-null position"}
+		"alphabet":          "absent null true 0 -1 1 2147483647 -2147483648 2147483648 -2147483649 9223372036854775807 9223372036854775808 -9223372036854775808 -9223372036854775809 1.0 1.5 1e3 \"1\" \"-1\" \"1.5\" \"abc\" \"\" \"true\" RED red \"RED\" [] [good] [good,good2] [good,null] [null] [each scalar] [[good]] [[]] [good,[good]] {} {required} {required,f:good|null|{}} {required,unknown:1} {unknown:1} {required:null}; numeric positions (Int Float ID IntID UintID and the scalars bound to graphql.Int32/Int64/Uint/Uint32/Uint64/Float, also as list elements) additionally: 4294967295 4294967296 18446744073709551615 18446744073709551616, the strings \"0\" and every 32/64-bit signed/unsigned boundary and its neighbour as a string, \"1e3\" \"1.0\" \"NaN\" \"Infinity\" \"-inf\"",
+		"variables_carrier": "whenever the variable is not provided: {\"variables\" key / URL parameter absent, null, {}, object holding only another key}; otherwise the object holding the variable",
+		"transports":        "every request through handler.Server + transport.POST on an httptest recorder; requests whose variable is absent or null, or whose operation declares a variable default or a non-null variable, and the corpus, additionally through transport.GET",
+		"modes":             "literal; whole argument through a variable; variable nested in a literal object/list; variable with default; non-null variable; nullable variable at a defaulted non-null position"}
 	c.Assume = []string{
 		"gqlparser's parser is trusted to turn query text into AST; validation and coercion are part of what is checked",
 		"Int is Go int (64 bit on this platform): gqlgen documents this binding (docs/content/reference/scalars.md, FIXME in codegen/config/config.go); the probe scalars I32/I64/U/U32/U64/F bound to graphql.Int32/Int64/Uint/Uint32/Uint64/Float have Int (resp. Float) semantics with exactly the range of their Go type: the resolver receives the mathematical value sent or the request is rejected",
@@ -276,7 +278,8 @@ func main() {
 		"the probe's custom scalar Lit accepts strings, numbers, booleans and bare names (its definition, probes/input/scalars/lit.go, is part of the schema, not of gqlgen); IntID/UintID follow ID semantics restricted to integers the Go type holds",
 		"absent and explicit null are compared where Go can show the difference (Omittable fields, map-backed inputs); elsewhere both are the zero/nil value",
 		"the @ad directive must see, from next(), the same value the specification gives for its position; how often it is called is not part of the statement",
-		"probe schema only; random schemas are not generated (sampling is another technique); a list of a map-backed input type ([MapIn]) is left out because generation panics on it (reported to C17)",
+		"probe schema only; random schemas are not generated (sampling is another technique); a list of a map-backed input type ([MapIn]) is left out because generation panicked on it when the probe was written (reported to C17)",
+		"a request whose `variables` carrier is absent, null, {} or holds only undeclared keys provides no variable: CoerceVariableValues still runs (defaults apply, a missing non-null variable is a request error); undeclared keys are ignored",
 	}
 	probe.Cleanup()
 	c.Finish()
